@@ -321,6 +321,7 @@ class _AsyncFileWriter(_UnicodeWriter[AnyStr]):
         self._needs_close = needs_close
         self._datatype = datatype
         self._paused = False
+        self._failed = False
         self._queue: asyncio.Queue[Optional[AnyStr]] = asyncio.Queue()
         self._write_task: Optional[asyncio.Task[None]] = \
             process.channel.get_connection().create_task(self._writer())
@@ -335,7 +336,14 @@ class _AsyncFileWriter(_UnicodeWriter[AnyStr]):
                 self._queue.task_done()
                 break
 
-            await self._file.write(self.encode(data))
+            # If the file can no longer be written, discard what's left
+            # so the channel isn't held up by a target which has failed
+            if not self._failed:
+                try:
+                    await self._file.write(self.encode(data))
+                except OSError:
+                    self._failed = True
+
             self._queue.task_done()
 
             if self._paused and self._queue.qsize() < _QUEUE_LOW_WATER:
@@ -605,6 +613,7 @@ class _StreamWriter(_UnicodeWriter[AnyStr]):
         self._recv_eof = recv_eof
         self._datatype = datatype
         self._paused = False
+        self._failed = False
         self._queue: asyncio.Queue[Optional[AnyStr]] = asyncio.Queue()
         self._write_task: Optional[asyncio.Task[None]] = \
             process.channel.get_connection().create_task(self._feed())
@@ -619,15 +628,22 @@ class _StreamWriter(_UnicodeWriter[AnyStr]):
                 self._queue.task_done()
                 break
 
-            self._writer.write(self.encode(data))
-            await self._writer.drain()
+            # If the stream can no longer be written, discard what's left
+            # so the channel isn't held up by a target which has failed
+            if not self._failed:
+                try:
+                    self._writer.write(self.encode(data))
+                    await self._writer.drain()
+                except OSError:
+                    self._failed = True
+
             self._queue.task_done()
 
             if self._paused and self._queue.qsize() < _QUEUE_LOW_WATER:
                 self._process.resume_feeding(self._datatype)
                 self._paused = False
 
-        if self._recv_eof:
+        if self._recv_eof and not self._failed:
             self._writer.write_eof()
 
     def write(self, data: AnyStr) -> None:
